@@ -124,7 +124,20 @@ def gen_table(rng, for_plan=False):
     for k in range(rng.randrange(3, 11)):
         fresh = for_plan or rng.random() < 0.6     # otherwise pins may collide with earlier resources
         res.append({"name": rng.choice(["led", "btn", "bus", "uart", "clk"]), "number": k, "node": node(0, fresh)})
-    return {"connectors": [list(c) for c in conns], "resources": res}
+    table = {"connectors": [list(c) for c in conns], "resources": res}
+    if for_plan and rng.random() < 0.3:
+        # two resources whose generated I/O port names coincide (<name>_<number>__<subsignal>...): the design has to
+        # rename one of the top-level ports, and the constraint file has to follow
+        na = len(res)
+        la, lb = None, None
+        for _ in range(12):
+            la = la if la is not None and la[0] == "pins" else leaf(True)
+            lb = lb if lb is not None and lb[0] == "pins" else leaf(True)
+        if la[0] == "pins" and lb[0] == "pins":
+            res.append({"name": "bus", "number": na, "node": ("group", [("d_1", la)], {})})
+            res.append({"name": f"bus_{na}__d", "number": 1, "node": lb})
+            table["colliding"] = [na, na + 1]
+    return table
 
 
 def resolve_name(conns, name):
@@ -459,24 +472,10 @@ def parse_constraints(vendor, text):
 
 
 def top_ports(il_text):
-    """Top-level port names and widths from the emitted RTLIL (module with attribute \\top)."""
-    ports = {}
-    in_top = False
-    is_top_next = False
-    for ln in il_text.splitlines():
-        s = ln.strip()
-        if s.startswith("attribute \\top"):
-            is_top_next = True
-        elif s.startswith("module "):
-            in_top = is_top_next
-            is_top_next = False
-        elif s == "end" and not ln.startswith(" "):
-            in_top = False
-        elif in_top and s.startswith("wire "):
-            m = re.match(r"wire (?:width (\d+) )?(?:input|output|inout) \d+ (?:signed )?\\(\S+)", s)
-            if m:
-                ports[m.group(2)] = int(m.group(1) or 1)
-    return ports
+    """Top-level port names and widths from the emitted RTLIL (read with the independent reader)."""
+    from ..rtlil import parse as P
+    doc = P.parse(il_text)
+    return {name.lstrip("\\"): w.width for name, w in doc.top().wires.items() if w.port_kind is not None}
 
 
 def run_plan(rng, out, vendor):
@@ -485,10 +484,12 @@ def run_plan(rng, out, vendor):
     table = gen_table(rng, for_plan=True)
     # the plan generator uses disjoint pins, so every request is granted
     ress, conns = build_table(table)
-    use = [r for r in table["resources"] if rng.random() < 0.7] or table["resources"][:1]
+    use = [r for k, r in enumerate(table["resources"]) if rng.random() < 0.7 or k in table.get("colliding", ())] or table["resources"][:1]
     p, cfile = make_platform(vendor, ress, conns, None)
     expected = {}      # port bit name -> pin
     clocks = {}
+    requested = []     # (I/O port object handed out by the platform, declared pins, declared clock in Hz or None)
+    negative_legs = []
 
     class D(Elaboratable):
         def elaborate(self, platform):
@@ -517,15 +518,13 @@ def run_plan(rng, out, vendor):
                         m.d.comb += buf.oe.eq(ctr[0])
                     if bd in ("i", "io"):
                         m.d.sync += acc.eq(acc ^ buf.i)
-                    base = "__".join(path)
-                    legs = [("io", pp)] if node[0] == "pins" else [("p", pp), ("n", pn)]
-                    for suffix, names in legs:
-                        for bit, pin in enumerate(names):
-                            nm = f"{base}__{suffix}" + (f"[{bit}]" if len(names) > 1 else "")
-                            expected[nm] = pin
                     clock = node[5] if node[0] == "pins" else node[6]
-                    if clock is not None:
-                        clocks[f"{base}__{'io' if node[0] == 'pins' else 'p'}"] = clock * 1e6
+                    if node[0] == "pins":
+                        requested.append((obj.io, pp, None if clock is None else clock * 1e6))
+                    else:
+                        requested.append((obj.p, pp, None if clock is None else clock * 1e6))
+                        requested.append((obj.n, pn, None))
+                        negative_legs.append(requested[-1])
             return m
     cfg = {"vendor": vendor, "table": table, "used": [[r["name"], r["number"]] for r in use]}
     try:
@@ -547,6 +546,33 @@ def run_plan(rng, out, vendor):
 
     def bad(mech, **kw):
         out["violations"].append({"mechanism": "constraint-file-" + mech, "detail": dict(cfg, **kw)})
+    # the name under which each requested I/O port appears at the top level of the built design (names are
+    # de-duplicated there), cross-checked against the port wires of the emitted netlist
+    design_names = {}
+    for (name, port, _dir) in p._design.ports:
+        design_names.setdefault(id(port), name)
+    for (ioport, pins, clock) in requested:
+        name = design_names.get(id(ioport))
+        if name is None:
+            if clock is None and pins is not None and any(ioport is q[0] for q in negative_legs):
+                continue        # (the complement leg of a differential pair is placed by the vendor primitive)
+            bad("requested-port-not-a-top-level-port", declared_pins=pins)
+            continue
+        if ports.get(name) != len(pins):
+            bad("netlist-port-missing-or-wrong-width", port=name, netlist_width=ports.get(name), declared_pins=pins)
+        for bit, pin in enumerate(pins):
+            nm = name + (f"[{bit}]" if len(pins) > 1 else "")
+            if nm in expected:
+                bad("two-requested-ports-share-a-top-level-name", port=nm)
+            expected[nm] = pin
+        if clock is not None:
+            clocks[name] = clock
+    if len(set(design_names.values())) != len(design_names):
+        bad("top-level-port-names-not-unique")
+    if "colliding" in table:
+        out["hist"]["plan-with-colliding-port-names"] = out["hist"].get("plan-with-colliding-port-names", 0) + 1
+        if any("$" in n for n in design_names.values()):
+            out["hist"]["plan-with-renamed-port"] = out["hist"].get("plan-with-renamed-port", 0) + 1
     if other:
         out["hist"]["unparsed-constraint-lines"] = out["hist"].get("unparsed-constraint-lines", 0) + len(other)
     seen = {}
